@@ -855,7 +855,15 @@ def i_CMPXCHG(i, fmap):
     dst, src = i.operands
     acc = {8: al, 16: ax, 32: eax}[dst.size]
     t = fmap(acc == dst)
+    # flags are those of CMP acc,dst
+    op1, op2 = fmap(acc), fmap(dst)
+    x, carry, overflow = SubWithBorrow(op1, op2)
+    fmap[af] = halfborrow(op1, op2)
     fmap[zf] = tst(t, bit1, bit0)
+    fmap[sf] = x.bit(-1)
+    fmap[cf] = carry
+    fmap[of] = overflow
+    fmap[pf] = parity8(x[0:8])
     v = fmap(dst)
     fmap[dst] = tst(t, fmap(src), v)
     fmap[acc] = v
@@ -991,15 +999,16 @@ i_SAL = i_SHL
 def i_ROL(i, fmap):
     op1 = i.operands[0]
     size = op1.size
-    count = fmap(i.operands[1] & 0x1F) % size
+    mcount = fmap(i.operands[1] & 0x1F)
+    count = mcount % size
     fmap[eip] = fmap[eip] + i.length
     a = fmap(op1)
     x = ROL(a, count)
     if count._is_cst:
-        if count.value == 0:
+        if mcount.value == 0:
             return
         fmap[cf] = x.bit(0)
-        if count.value == 1:
+        if mcount.value == 1:
             fmap[of] = x.bit(-1) ^ fmap(cf)
         else:
             fmap[of] = top(1)
@@ -1012,15 +1021,16 @@ def i_ROL(i, fmap):
 def i_ROR(i, fmap):
     op1 = i.operands[0]
     size = op1.size
-    count = fmap(i.operands[1] & 0x1F) % size
+    mcount = fmap(i.operands[1] & 0x1F)
+    count = mcount % size
     fmap[eip] = fmap[eip] + i.length
     a = fmap(op1)
     x = ROR(a, count)
     if count._is_cst:
-        if count.value == 0:
+        if mcount.value == 0:
             return
         fmap[cf] = x.bit(-1)
-        if count.value == 1:
+        if mcount.value == 1:
             fmap[of] = x.bit(-1) ^ x.bit(-2)
         else:
             fmap[of] = top(1)
